@@ -263,4 +263,18 @@ example : WF newFilter 0 ∧ newFilter.ttl = (replayTTL : Int) ∧
     (500000 : Int) = (0 + 500000 * nsPerHour) / nsPerHour := by
   refine ⟨⟨by simp [newFilter, Filter.new, Sorted], by simp [newFilter, Filter.new], by decide⟩, rfl, by simp [MonotoneFrom], by decide⟩
 
+/-- **structural facts, regenerated from the Go source on every run (go/ast call sets)**: the
+    replay filter is consulted (`filter.TestAndSet`) inside `parseClientHandshake`, and the clock
+    it is handed (`time.Now`) and the epoch hour (`getEpochHour`) are read *there* — at the time
+    of the submission, as the model assumes — not when the connection was accepted
+    (`newServerHandshake` reads no clock). -/
+theorem filter_clock_read_at_submission :
+    "filter.TestAndSet" ∈ O4.Facts.Obfs4.serverHandshake_parseClientHandshake_calls ∧
+    "time.Now" ∈ O4.Facts.Obfs4.serverHandshake_parseClientHandshake_calls ∧
+    "getEpochHour" ∈ O4.Facts.Obfs4.serverHandshake_parseClientHandshake_calls ∧
+    "time.Now" ∉ O4.Facts.Obfs4.func_newServerHandshake_calls ∧
+    "getEpochHour" ∉ O4.Facts.Obfs4.func_newServerHandshake_calls ∧
+    "getEpochHour" ∉ O4.Facts.Obfs4.serverHandshake_generateHandshake_calls := by
+  decide
+
 end C04
